@@ -782,6 +782,264 @@ func vfC14Best(s *vfutil.Session, tag int, r *vfutil.Rand) {
 
 // ------------------------------------------------------------ corpus / main
 
+// ------------------------------------------------------------ cluster-typed start: several slot tags
+//
+// On a cluster target the journal records, their index sets and the latest records are spread over the
+// slot tags of the units' keys; a start scans all 16384 tags and its clean-up iterates a Go map of index
+// keys, so the request order across tags is not fixed: no request-sequence comparison here, only monitors
+// that do not depend on it. Oracle (independent of the model): e(k) = end offset of unit k;
+//   pipeline/parallel: c = snapshot seq (0 if none), advanced while unit c+1 has a journal record; the point
+//   is e(c) if c > 0 and the root is not newer, the root otherwise (numbering restarts);
+//   sync: the largest end offset among the per-tag latest records, the root if it is newer.
+// Every write request of the start is a crash point and, in turn, fails once.
+
+type vfCCase struct {
+	mode    string
+	slots   []uint16
+	rootOff int64 // 0 = no root
+	snapSeq int64 // -1 = no snapshot
+	recs    [][2]int64 // seq, slot index
+	latest  [][2]int64 // seq, slot index (sync mode)
+}
+
+func (c *vfCCase) op() string {
+	f := func(xs [][2]int64) string {
+		p := []string{}
+		for _, x := range xs {
+			p = append(p, fmt.Sprintf("%d/%d", x[0], x[1]))
+		}
+		if len(p) == 0 {
+			return "."
+		}
+		return strings.Join(p, ",")
+	}
+	sl := []int{}
+	for _, x := range c.slots {
+		sl = append(sl, int(x))
+	}
+	return fmt.Sprintf("c14k mode=%s slots=%s root=%d snap=%d recs=%s latest=%s", c.mode, checkpoint.VfInts(sl), c.rootOff, c.snapSeq, f(c.recs), f(c.latest))
+}
+
+const vfCRid = "2222222222222222222222222222222222222222"
+
+func vfCE(k int64) int64 { return 9000 + 100*k }
+
+func (c *vfCCase) seed(tg *vfdoubles.Target) {
+	if c.rootOff > 0 {
+		tg.Seed(0, "hset", vfC14Cp, vfCRid+"_runid", vfCRid, vfCRid+"_version", config.Version, vfCRid+"_offset", strconv.FormatInt(c.rootOff, 10), vfCRid+"_mtime", "1700000000000000000")
+	}
+	tg.Seed(0, "hset", vfC14Cp, "bisync_mode", "parallel")
+	if c.snapSeq >= 0 {
+		fr := &checkpoint.BisyncFrontierSnapshot{Version: config.Version, RunID: vfCRid, UnitSeq: c.snapSeq, Offset: vfCE(c.snapSeq), MTime: 1}
+		tg.Seed(0, vfArgs(checkpoint.BisyncFrontierKey(vfC14Cp), fr.HashArgs())...)
+	}
+	for _, x := range c.recs {
+		slot := c.slots[x[1]]
+		tag := checkpoint.BisyncSlotTag(slot)
+		k := checkpoint.BisyncCommitRecordKey(vfC14Cp, tag, x[0])
+		rec := &checkpoint.BisyncCommitRecord{Key: k, Version: config.Version, RunID: vfCRid, SyncerID: "vf", UnitSeq: x[0], StartOffset: vfCE(x[0] - 1), EndOffset: vfCE(x[0]), Slot: slot, MTime: 5, Digest: "d"}
+		tg.Seed(0, vfArgs(k, rec.HashArgs())...)
+		tg.Seed(0, "zadd", checkpoint.BisyncCommitIndexKey(vfC14Cp, tag), strconv.FormatInt(x[0], 10), k)
+	}
+	for _, x := range c.latest {
+		slot := c.slots[x[1]]
+		k := checkpoint.BisyncLatestCheckpointKey(vfC14Cp, checkpoint.BisyncSlotTag(slot))
+		rec := &checkpoint.BisyncCommitRecord{Key: k, Version: config.Version, RunID: vfCRid, SyncerID: "vf", UnitSeq: x[0], StartOffset: vfCE(x[0] - 1), EndOffset: vfCE(x[0]), Slot: slot, MTime: 5, Digest: "d"}
+		tg.Seed(0, vfArgs(k, rec.HashArgs())...)
+	}
+}
+
+func (c *vfCCase) expect() int64 {
+	if c.rootOff == 0 {
+		return -1 // empty
+	}
+	if c.mode == "L" {
+		best := int64(-1)
+		for _, x := range c.latest {
+			if vfCE(x[0]) > best {
+				best = vfCE(x[0])
+			}
+		}
+		if best < 0 || c.rootOff > best {
+			return c.rootOff
+		}
+		return best
+	}
+	have := map[int64]bool{}
+	for _, x := range c.recs {
+		have[x[0]] = true
+	}
+	k := int64(0)
+	if c.snapSeq > 0 {
+		k = c.snapSeq
+	}
+	for have[k+1] {
+		k++
+	}
+	if k == 0 || c.rootOff > vfCE(k) {
+		return c.rootOff
+	}
+	return vfCE(k)
+}
+
+func vfC14ClusterStart(tg *vfdoubles.Target, mode string) (int64, string) {
+	ro := vfC14Output(tg, mode)
+	ro.cfg.Redis.Type = config.RedisTypeCluster
+	ro.cfg.Redis.Otype = config.RedisTypeCluster
+	sp, seq, ok, err := ro.bisyncStartPoint(context.Background(), []string{vfCRid, "0000000000000000000000000000000000000000"})
+	if err != nil {
+		return -2, "err:" + err.Error()
+	}
+	if !ok {
+		return -1, "empty"
+	}
+	return sp.Offset, fmt.Sprintf("%d/seq%d", sp.Offset, seq)
+}
+
+func vfC14ClusterCase(s *vfutil.Session, c *vfCCase, src string) {
+	tg := vfdoubles.NewTarget()
+	c.seed(tg)
+	nSeed := tg.LogLen()
+	off, txt := vfC14ClusterStart(tg, c.mode)
+	tg.CloseAll()
+	log := tg.LogCopy()
+	s.Count("cluster_start_" + c.mode + "_" + src)
+	rep := func(extra map[string]interface{}) map[string]interface{} {
+		m := map[string]interface{}{"op": c.op(), "start": txt}
+		for k, v := range extra {
+			m[k] = v
+		}
+		return m
+	}
+	if want := c.expect(); off != want {
+		s.Violate("cluster-start-wrong-point", fmt.Sprintf("slot tags %v: the start answered %s, the contiguous committed prefix / newer root gives %d", c.slots, txt, want), rep(nil))
+		return
+	}
+	if off < 0 {
+		return
+	}
+	var ws []int
+	for i := nSeed; i < len(log); i++ {
+		if _, ok := vfC14RenderWrite(log[i]); ok {
+			ws = append(ws, i)
+		}
+	}
+	if len(ws) > 0 {
+		s.Count("cluster_start_with_cleanup")
+	}
+	for n, w := range ws {
+		tk := vfdoubles.Replay(log[:w+1], 0)
+		o2, t2 := vfC14ClusterStart(tk, c.mode)
+		tk.CloseAll()
+		s.Count("cluster_crash_points")
+		if o2 < off {
+			s.Violate("cluster-restart-moves-resume-backwards", fmt.Sprintf("start resumed at %s; stopped after its request #%d (%s) a fresh start: %s", txt, n+1, log[w].String(), t2),
+				rep(map[string]interface{}{"crash_after_request": n + 1, "next": t2}))
+			return
+		}
+		// the request fails instead (transient)
+		tf := vfdoubles.NewTarget()
+		c.seed(tf)
+		tf.FailAt[w] = "ERR vf injected"
+		oF, tF := vfC14ClusterStart(tf, c.mode)
+		tf.CloseAll()
+		after := vfdoubles.ReplayFaults(tf.LogCopy(), 0, false, map[int]string{w: "ERR vf injected"})
+		o3, t3 := vfC14ClusterStart(after, c.mode)
+		after.CloseAll()
+		s.Count("cluster_fault_cases")
+		if (oF >= 0 && oF != off) || o3 < off {
+			s.Violate("cluster-start-fault-moves-resume", fmt.Sprintf("start resumes at %s; with its request #%d (%s) failing it answers %s, the next start %s", txt, n+1, log[w].String(), tF, t3),
+				rep(map[string]interface{}{"failed_request": n + 1, "start_with_fault": tF, "next": t3}))
+			return
+		}
+	}
+	s.Distinct(fmt.Sprintf("k|%s|%d|%d|%d|%v", c.mode, len(c.slots), len(c.recs), len(ws), c.rootOff > off))
+}
+
+func vfC14GenCluster(r *vfutil.Rand) *vfCCase {
+	c := &vfCCase{mode: vfutil.Pick(r, []string{"F", "F", "P", "L"}), snapSeq: -1}
+	pool := []uint16{0, 5, 866, 4000, 12182, 16383}
+	for i := len(pool) - 1; i > 0; i-- {
+		j := r.Intn(i + 1)
+		pool[i], pool[j] = pool[j], pool[i]
+	}
+	c.slots = pool[:r.Range(2, 3)]
+	top := int64(0)
+	if c.mode == "L" {
+		for i := range c.slots {
+			if r.Chance(3, 4) {
+				q := int64(r.Range(1, 9))
+				c.latest = append(c.latest, [2]int64{q, int64(i)})
+				if q > top {
+					top = q
+				}
+			}
+		}
+	} else {
+		if r.Chance(2, 3) {
+			c.snapSeq = int64(r.Range(0, 4))
+		}
+		base := c.snapSeq
+		if base < 0 {
+			base = 0
+		}
+		for q := base + 1; q <= base+int64(r.Range(0, 6)); q++ {
+			if r.Chance(1, 6) {
+				continue // gap
+			}
+			c.recs = append(c.recs, [2]int64{q, int64(r.Intn(len(c.slots)))})
+			top = q
+		}
+		if base > 0 && r.Chance(1, 3) { // a leftover the snapshot covers
+			c.recs = append(c.recs, [2]int64{int64(r.Range(1, int(base))), int64(r.Intn(len(c.slots)))})
+		}
+	}
+	switch r.Intn(6) {
+	case 0:
+		c.rootOff = 0
+	case 1:
+		c.rootOff = vfCE(top) + 50 // newer than everything: numbering restarts
+	case 2:
+		c.rootOff = vfCE(int64(r.Range(0, int(top)+1))) + 1
+	default:
+		c.rootOff = vfCE(0)
+	}
+	return c
+}
+
+func vfC14ParseCluster(op string) *vfCCase {
+	if !strings.HasPrefix(op, "c14k ") {
+		return nil
+	}
+	kv := map[string]string{}
+	for _, tok := range strings.Fields(op)[1:] {
+		if i := strings.IndexByte(tok, '='); i > 0 {
+			kv[tok[:i]] = tok[i+1:]
+		}
+	}
+	c := &vfCCase{mode: kv["mode"]}
+	for _, x := range checkpoint.VfUnInts(kv["slots"]) {
+		c.slots = append(c.slots, uint16(x))
+	}
+	c.rootOff, _ = strconv.ParseInt(kv["root"], 10, 64)
+	c.snapSeq, _ = strconv.ParseInt(kv["snap"], 10, 64)
+	pairs := func(v string) [][2]int64 {
+		var out [][2]int64
+		if v == "." || v == "" {
+			return out
+		}
+		for _, p := range strings.Split(v, ",") {
+			ab := strings.Split(p, "/")
+			a, _ := strconv.ParseInt(ab[0], 10, 64)
+			b, _ := strconv.ParseInt(ab[1], 10, 64)
+			out = append(out, [2]int64{a, b})
+		}
+		return out
+	}
+	c.recs, c.latest = pairs(kv["recs"]), pairs(kv["latest"])
+	return c
+}
+
 func vfC14ParseStartOp(op string) (string, []string, *vfNS) {
 	f := strings.Fields(op)
 	if len(f) != 10 || f[0] != "c14s" {
@@ -805,6 +1063,14 @@ func TestVerifC14(t *testing.T) {
 			}
 			if mode, ids, ns := vfC14ParseStartOp(op); ns != nil {
 				vfC14StartCase(t, s, &tag, mode, ids, ns, 0, false, 2, r, "replay")
+			}
+		} else if i := strings.Index(op, "c14k "); i >= 0 {
+			op = op[i:]
+			if j := strings.IndexAny(op, "\"\n"); j >= 0 {
+				op = op[:j]
+			}
+			if c := vfC14ParseCluster(op); c != nil {
+				vfC14ClusterCase(s, c, "replay")
 			}
 		}
 		return
@@ -832,5 +1098,15 @@ func TestVerifC14(t *testing.T) {
 		rid, seq0, off0, evs := vfC14GenCoord(r.Fork())
 		vfC14CoordCase(t, s, tag, rid, seq0, off0, evs, "gen")
 		tag++
+	}
+	for _, l := range vfutil.Corpus("C14") {
+		if c := vfC14ParseCluster(l); c != nil {
+			vfC14ClusterCase(s, c, "corpus")
+		}
+	}
+	rk := vfutil.NewRand(vfutil.Seed() + 1414)
+	n = vfutil.Scale(40, 800)
+	for i := 0; i < n; i++ {
+		vfC14ClusterCase(s, vfC14GenCluster(rk.Fork()), "gen")
 	}
 }
